@@ -202,6 +202,35 @@ def _tagkind_catalogue():
 TAGKIND = _tagkind_catalogue()
 
 
+def _manifest_tagkind_catalogue():
+    """_package.yml entries whose explicit tag contradicts the kind of the node (`versions: !!map [a]`), at every key of the manifest"""
+    out = []
+    nodes = ["[a]", "{a: b}", "x", "~", "''", "[]", "{}", "[[a]]", "{a: [b]}", "[{a: b}]"]
+    tags = ["!!seq", "!!map", "!!str", "!!int", "!!null", "!!bool", "!"]
+    keys = ["namespace", "imports", "versions", "cpp", "python", "matlab", "json"]
+    for k in keys:
+        for t in tags:
+            for n in nodes:
+                head = "" if k == "namespace" else "namespace: %(ns)s\n"
+                out.append(head + "%s: %s %s\n" % (k, t, n))
+    for sec, sub in [("cpp", "sourcesOutputDir"), ("cpp", "generateHDF5"), ("python", "outputDir"), ("python", "generateNDJson"), ("json", "outputDir"), ("matlab", "outputDir")]:
+        for t in tags:
+            for n in nodes[:6]:
+                out.append("namespace: %%(ns)s\n%s:\n  %s: %s %s\n" % (sec, sub, t, n))
+    for t in tags:
+        for n in nodes[:6]:
+            out.append("namespace: %%(ns)s\nimports:\n  - %s %s\n" % (t, n))
+            out.append("namespace: %%(ns)s\nversions:\n  v0: %s %s\n" % (t, n))
+            out.append("namespace: %%(ns)s\nversions:\n  %s %s: ../v0\n" % (t, n if not n.startswith(("[", "{")) else "x"))
+    out.append("%s %s\n" % ("!!seq", "{namespace: %(ns)s}"))
+    out.append("%s %s\n" % ("!!map", "[namespace, %(ns)s]"))
+    out.append("!!str {namespace: %(ns)s}\n")
+    return out
+
+
+MTAGKIND = _manifest_tagkind_catalogue()
+
+
 def _deep_catalogue():
     """valid models whose naive (un-memoised) processing is exponential in the length of a chain"""
     out = []
@@ -262,6 +291,8 @@ def run(ctx):
         jobs.append(("tagkind", i))
     for i in range(len(DEEP)):
         jobs.append(("deep", i))
+    for i in range(len(MTAGKIND)):
+        jobs.append(("mtagkind", i))
     # packages with a previous version: every documented kind of change (compatible, partial, breaking), only totality is judged here
     for i in range(3 * len(evo.ALL_EDITS) if quick else 40 * len(evo.ALL_EDITS)):
         jobs.append(("evolve", i))
@@ -315,6 +346,9 @@ def run(ctx):
                 files[root_rel + "/second.yaml"] = fuzzgen.arbitrary_defs(r, r.randint(1, 4))
         elif kind == "manifest":
             files[root_rel + "/_package.yml"] = fuzzgen.mutate_manifest(pkg.ns, r)
+        elif kind == "mtagkind":
+            files[root_rel + "/_package.yml"] = MTAGKIND[i] % {"ns": pkg.ns}
+            desc += " manifest tag/kind mismatch `%s`" % MTAGKIND[i].replace("\n", " | ")[:90]
         elif kind == "cycle":
             forms = [("a", "b", None), ("a", "b + 1", None), ("a", "c", "b"), ("a", "a", None), ("a", "a + 1", None)]
             pats = ["int x", "int", "_", "float y", "null", "string s"]
